@@ -61,7 +61,7 @@ func c18GenOp(s Src, root *Node) c18Op {
 		op.Steps = c02IndexedSteps(n, mask)
 	}
 	op.Filter = pickOne(s, []string{"", "", "", "", "first", "last", "where-true", "where-false", "index0", "extension-url", "where-id", "tail"})
-	op.Value = pickOne(s, []string{"same", "same", "same", "sibling", "wrong", "nil", "clone-of-target"})
+	op.Value = pickOne(s, []string{"same", "same", "same", "sibling", "wrong", "nil", "clone-of-target", "namesake"})
 	op.Index = s.Range(-1, 4)
 	if op.Op == "insert" && s.Prob(75) {
 		// aim at a whole list: the items of one repeated field of one parent, last step un-indexed
@@ -290,6 +290,17 @@ func c18Value(kind string, fd protoreflect.MessageDescriptor, target proto.Messa
 			return b, "clone-of-target"
 		}
 	}
+	if kind == "namesake" && fd != nil {
+		// a message of another type that has the same short name (Person.GenderCode for Patient.GenderCode)
+		if ns := namesakeOf(fd, seed); ns != nil {
+			if m := dynamicNew(ns); m != nil {
+				if b, ok := m.Interface().(fhir.Base); ok {
+					return b, "namesake"
+				}
+			}
+		}
+		kind = "wrong"
+	}
 	if fd == nil || kind == "wrong" {
 		wrong := []fhir.Base{&dtpb.Period{Start: &dtpb.DateTime{ValueUs: 1, Precision: dtpb.DateTime_YEAR, Timezone: "Z"}}, &dtpb.Boolean{Value: true}, &dtpb.Attachment{Title: &dtpb.String{Value: "t"}}, &dtpb.Base64Binary{Value: []byte("x")}}
 		return wrong[seed%len(wrong)], "wrong"
@@ -353,15 +364,6 @@ func c18Value(kind string, fd protoreflect.MessageDescriptor, target proto.Messa
 		return b, "same"
 	}
 	return &dtpb.String{Value: "abc"}, "wrong"
-}
-
-// dynamicNew creates a new generated-code message for a descriptor of the R4 packages.
-func dynamicNew(md protoreflect.MessageDescriptor) protoreflect.Message {
-	mt, err := protoregistryFind(md.FullName())
-	if err != nil {
-		return nil
-	}
-	return mt.New()
 }
 
 // fixedSrc: a deterministic Src for building values from a drawn seed (keeps value
